@@ -7,6 +7,7 @@ package transport
 import (
 	"errors"
 	"io"
+	"os"
 	"runtime"
 	"sync"
 	"sync/atomic"
@@ -51,7 +52,41 @@ type Conn struct {
 	MaxRead int
 	// Done, when non-nil, is closed by whoever runs the server-side handler once it has returned.
 	Done chan struct{}
+	// Backpressure, when > 0, makes a server Write block while that many bytes are waiting unread by the client
+	// (a peer that reads slowly or not at all); the default is an unbounded buffer.
+	Backpressure int
+	consumed     int
+	rdDeadline   time.Time
+	wrDeadline   time.Time
 }
+
+// SetDeadline, SetReadDeadline and SetWriteDeadline give the connection net.Conn's deadline semantics, so that
+// server code that sets timeouts behaves as it would on a socket.
+func (c *Conn) SetDeadline(t time.Time) error {
+	c.mu.Lock()
+	c.rdDeadline, c.wrDeadline = t, t
+	c.cond.Broadcast()
+	c.mu.Unlock()
+	return nil
+}
+
+func (c *Conn) SetReadDeadline(t time.Time) error {
+	c.mu.Lock()
+	c.rdDeadline = t
+	c.cond.Broadcast()
+	c.mu.Unlock()
+	return nil
+}
+
+func (c *Conn) SetWriteDeadline(t time.Time) error {
+	c.mu.Lock()
+	c.wrDeadline = t
+	c.cond.Broadcast()
+	c.mu.Unlock()
+	return nil
+}
+
+func expired(t time.Time) bool { return !t.IsZero() && time.Now().After(t) }
 
 func NewConn() *Conn {
 	c := &Conn{Clock: &Clock{}}
@@ -95,9 +130,18 @@ func (c *Conn) Read(p []byte) (int, error) {
 		if c.inEOF {
 			return 0, io.EOF
 		}
+		if expired(c.rdDeadline) {
+			return 0, os.ErrDeadlineExceeded
+		}
 		c.parked = true
 		c.cond.Broadcast()
-		c.cond.Wait()
+		if c.rdDeadline.IsZero() {
+			c.cond.Wait()
+		} else {
+			c.mu.Unlock()
+			time.Sleep(500 * time.Microsecond)
+			c.mu.Lock()
+		}
 		c.parked = false
 	}
 }
@@ -108,8 +152,19 @@ func (c *Conn) Write(p []byte) (int, error) {
 	}
 	c.mu.Lock()
 	defer c.mu.Unlock()
-	if c.srvClosed {
-		return 0, ErrClosed
+	for {
+		if c.srvClosed {
+			return 0, ErrClosed
+		}
+		if expired(c.wrDeadline) {
+			return 0, os.ErrDeadlineExceeded
+		}
+		if c.Backpressure <= 0 || c.outBytes-c.consumed < c.Backpressure {
+			break
+		}
+		c.mu.Unlock()
+		time.Sleep(200 * time.Microsecond)
+		c.mu.Lock()
 	}
 	d := make([]byte, len(p))
 	copy(d, p)
@@ -271,6 +326,7 @@ func (c *Conn) ClientRead(p []byte, d time.Duration, done func() bool) (int, err
 		if c.rdPos < len(c.out) {
 			n := copy(p, c.out[c.rdPos].Data[c.rdOff:])
 			c.rdOff += n
+			c.consumed += n
 			return n, nil
 		}
 		if c.srvClosed || (done != nil && done()) {
